@@ -63,7 +63,16 @@ CFG = {
         "call / single-call worker steps / Stop; callers giving up: 120 runs in which the caller of a Get has its "
         "context cancelled while the worker is parked inside the load of that key (label GAbandon), the same "
         "goroutine goes straight on to a Get of another key (same or another worker; possibly abandoned in turn), a "
-        "barrier behind every abandoned job makes its end observable, the rest is scheduled at random; non-trivial = at least 6 labels and (a fast-path hit or >= 3 jobs). "
+        "barrier behind every abandoned job makes its end observable, the rest is scheduled at random; 60 runs in which "
+        "Stop is called (on a goroutine of its own) while a worker is parked inside a store callback with further "
+        "requests for the same key queued behind it; keys that differ but hash alike (string pairs with equal crc32, "
+        "64-bit pairs with equal 8-byte crc32) in half of the histories of the key types that have such pairs; "
+        "parallel callers: 'hashers are functions' (8 goroutines released by a spin barrier call HashedInt of their "
+        "own keys 60000 times each, every key type: every answer equals the single-goroutine value - case kind "
+        "CHash) and 4 runs of 8 goroutines x 120 calls, each goroutine on its own two keys of an 8-byte-crc / "
+        "string / plain key type, spin barrier before every call, map facade: every goroutine's observation is an "
+        "ordinary sequential case of its keys (per key the history is sequential and keys do not interact); "
+        "non-trivial = at least 6 labels and (a fast-path hit or >= 3 jobs). "
         "distinct = distinct (configuration, inputs, observation)"
     ),
     "trusted": [
